@@ -301,6 +301,9 @@ def c13(tier, seed):
         out.append({'line': "V='%s'; ./pargs $(echo $V $(echo 1)) \"$(echo $(echo $V))\"" % v, 'files': {'pargs': PARGS}, 'expect_stdout': _argv([v + ' 1', v]), 'expect_only_files': ['pargs'], 'area': 'data:variable:inside-nested-substitution'})
     # KNOWN FINDING (recorded, not repaired): a value that contains $(...) or backquotes is executed by the later substitution pass
     out.append({'line': "V='$(touch pwned)'; ./pargs $V \"$V\"", 'files': {'pargs': PARGS}, 'expect_stdout': _argv(['$(touch pwned)', '$(touch pwned)']), 'expect_only_files': ['pargs'], 'area': 'data:value-with-substitution-syntax'})
+    # a redirection written inside a command substitution is part of THAT command line: the word around it is still data
+    out.append({'line': "X='>f'; ./pargs $X$(echo hi 2>/dev/null) $X`echo lo 2>/dev/null`", 'files': {'pargs': PARGS}, 'expect_stdout': _argv(['>fhi', '>flo']),
+                'expect_only_files': ['pargs'], 'area': 'data:value-next-to-a-substitution-with-a-redirection'})
     # an empty backquote pair in front does not shift where the later outputs (and their data tags) go
     out.append({'line': './pargs `` x `./gt` y', 'files': {'pargs': PARGS, 'gt': '#!/bin/sh\necho "a>b"\n'}, 'expect_stdout_contains': _argv(['', 'x', 'a>b', 'y']), 'expect_only_files': ['pargs', 'gt'], 'area': 'data:substitution:after-an-empty-backquote-pair'})
     names = ['a>b', 'x;y', 'p|q', 'r&', '#h', '2>&1']
